@@ -47,7 +47,7 @@ LaneHead(pend, i) == \A j \in 1..(i - 1) : ~(pend[j].dir = pend[i].dir /\ pend[j
 Matches(r, d, n, h) == r.dir = d /\ r.n = n /\ r.h = h
 HeadMatches(pend, d, n, h) == {i \in 1..Len(pend) : Matches(pend[i], d, n, h) /\ LaneHead(pend, i)}
 AnyMatches(pend, d, n, h)  == {i \in 1..Len(pend) : Matches(pend[i], d, n, h)}
-Min(S) == CHOOSE x \in S : \A y \in S : x <= y
-RemoveAt(s, i) == SubSeq(s, 1, i - 1) \o SubSeq(s, i + 1, Len(s))
+MinOf(S) == CHOOSE x \in S : \A y \in S : x <= y
+DropAt(s, i) == SubSeq(s, 1, i - 1) \o SubSeq(s, i + 1, Len(s))
 PendingOf(pend, d) == {i \in 1..Len(pend) : pend[i].dir = d}
 =============================================================================
